@@ -352,6 +352,10 @@ def shards(tier, seed):
     return sh
 
 
+def jsonable_widths(zw):
+    return {k: list(v) for k, v in zw.items()}
+
+
 def run_table(rec, K, N, table, ti, seed, per=4, layouts=(0,)):
     g = None
     order = ti % 3
@@ -362,6 +366,23 @@ def run_table(rec, K, N, table, ti, seed, per=4, layouts=(0,)):
         rec.violation("constructor", "raise:" + exc_sig(e), dict(K=K, N=N, table=tab_json(table), axis="X", comp="s", wA=[1, 1], wB=[0, 0], ri=0, li=0),
                       "a Grid", f"{type(e).__name__}: {e}"[:200])
         return
+    # a request for no halo at all (widths zero, as tuples or as lists) returns the array as it is
+    from xgcm.padding import pad as _pad
+
+    for zi, zw in enumerate(({"X": (0, 0), "Y": (0, 0)}, {"X": [0, 0], "Y": [0, 0]}, {"X": [0, 0]}, {"Y": (0, 0)})):
+        if (ti + zi) % 2:
+            continue
+        zcase = dict(K=K, N=N, table=tab_json(table), zero_widths=jsonable_widths(zw), order=order)
+        rec.case(("zero", K, N, tab_json(table), zi), True, sample=zcase)
+        a0 = fields(K, N, seed + ti)["s"]
+        try:
+            with warnings.catch_warnings():
+                warnings.simplefilter("ignore")
+                rz = _pad(to_da(a0, "s", LAYOUTS[0]), g, zw, boundary="extend")
+            if set(rz.dims) != {"face", "y", "x"} or not np.array_equal(rz.transpose("face", "y", "x").values, a0):
+                rec.violation("pad", "zero-width-request-changes-the-array", zcase, list(a0.shape), list(rz.shape))
+        except Exception as e:
+            rec.violation("pad", "raise:zero-width:" + exc_sig(e), zcase, "the array", f"{type(e).__name__}: {e}"[:200])
     combos = all_width_rule(N)
     j = 0
     for axis in ("X", "Y"):
@@ -411,6 +432,8 @@ def run_shard(shard, tier, seed, rec):
 
 
 def replay_case(case, seed, rec):
+    if "zero_widths" in case:
+        return  # replayed in the context of its shard (run_table)
     table = tab_from_json(case["table"])
     check_pad(rec, case["K"], case["N"], table, case["axis"], case["comp"], tuple(case["wA"]), tuple(case["wB"]),
               case["ri"], case["li"], seed, order=case.get("order", 0))
